@@ -112,6 +112,13 @@ def windows():
         story(est + [("req",), ("req",), ("drain",), ("hop", 0, ("data", [H(10)])), ("hop", 0, cause), ("drain",)] + again)
         story(est + [("req",), ("drain",), cause, ("drain",), ("req",)] + again)
     story([("cmd",), ("finish", 0), ("disc",), ("force",), ("drain",)] + again)
+    # the story ends while disconnect() is still waiting for the device: the final probe must be refused
+    story(est + [("disc",), ("drain",)])
+    story(pre + [("finish", 0), ("drain",), ("disc",), ("drain",)])
+    story(est + [("req",), ("drain",), ("disc",), ("drain",)])
+    # the caller gave no on_stop hook: endings of every kind still clear the client
+    for d in list(out):
+        out.append(dict(d, hook=False))
     return out
 
 
@@ -123,7 +130,7 @@ def model_line(story, steps):
 def run_impl(story):
     def go(loop):
         return clienttrace.run_scenario(loop, story["scenario"], expected_name="dev" if story["expect"] else None,
-                                        keepalive_units=story["keepalive"], scripts={})
+                                        keepalive_units=story["keepalive"], scripts={}, user_hook=story.get("hook", True))
     return simnet.run(go)
 
 
@@ -158,6 +165,10 @@ def predicate(tr, story):
         if closed and not pending and has:
             v.append(("C19/wedged", "no attempt in progress and no session alive, yet the client still holds a connection: every later start_connection is refused", max(at - 1, 0)))
             break
+    for at, closed, timers, pending, has in tr.audits:
+        if not closed and not has:
+            v.append(("C19/reference-dropped-while-open", "the client no longer refers to its connection although that connection is still open: a new attempt would be accepted next to it", max(at - 1, 0)))
+            break
     # every start_connection call: refused iff something is alive or in progress
     for i, (label, p, cl, obs) in enumerate(steps):
         if label != "cstart":
@@ -169,6 +180,8 @@ def predicate(tr, story):
     fp = tr.final_probe
     if not fp["busy"] and fp["probe"] != "accepted":
         v.append(("C19/final-probe", f"after the story nothing is alive or in progress, but start_connection answers {fp['probe']}", len(steps) - 1))
+    if fp.get("open_unreferenced") and fp["probe"] == "accepted":
+        v.append(("C19/accepted-while-alive", "start_connection was accepted although the previous connection of this client is still open (session alive or attempt in progress)", len(steps) - 1))
     if not fp["alive"] and (fp["cmd"] != "refused" or fp["wrote"]):
         v.append(("C19/final-command", f"command with no live session: {fp['cmd']}, wrote {fp['wrote']} frame(s)", len(steps) - 1))
     return v
@@ -188,6 +201,9 @@ def run(rep, tier, seed):
     stories = [("window", s) for s in windows()]
     n = 500 if tier == "quick" else 6000
     stories += [("random", gen_story(rng)) for _ in range(n)]
+    for kind, st in stories:
+        if kind == "random" and rng.random() < 0.3:
+            st["hook"] = False
     trs = []
     lines = []
     for kind, st in stories:
